@@ -73,7 +73,9 @@ class OpGen:
         from .schema import Names
         for cls_name, pool in Names.DIRTY_POOLS.items():
             if cls_name in self.dirty and self.rng.random() < 0.3:
-                free = [p for p in pool if p not in scope_used]
+                # never a name that differs from a used one only by case/underscores: such pairs are a separate (listed) collision class, driven by C18 part C
+                taken = {u.lower().replace("_", "") for u in scope_used}
+                free = [p for p in pool if p not in scope_used and p.lower().replace("_", "") not in taken]
                 if free:
                     self.feats.add(cls_name + ".op")
                     name = self.rng.choice(free)
@@ -104,7 +106,7 @@ class OpGen:
             pool = ["query", "variables", "response", "data", "operation_name"]
             if self.rng.random() < 0.4:
                 pool = ["Query", "QUERY", "query_", "Data", "DATA", "Variables", "Response", "data_"]  # become a method local's name only after the name mapping
-            free = [x for x in pool if x not in self.used_vars and x.lower().strip("_") not in {u.lower().strip("_") for u in self.used_vars}]
+            free = [x for x in pool if x not in self.used_vars and x.lower().replace("_", "") not in {u.lower().replace("_", "") for u in self.used_vars}]
             if free:
                 name = self.rng.choice(free)
                 self.used_vars.add(name)
